@@ -173,7 +173,9 @@ def pools_b(seed):
 
 RADII_B = {"CENTERDISTANCE": [1.5, 1.5], "PLANEDISTANCE": [1.5, 0.8], "IOU2D": [0.2, 0.05], "IOU3D": [0.2, 0.05]}
 # the same kind of setting given as Python ints (what `max_matchable_radii: 2` in a configuration produces)
-RADII_B_INT = {"CENTERDISTANCE": [2, 1], "PLANEDISTANCE": [2, 1], "IOU2D": [0, 0], "IOU3D": [0, 0]}
+# ... with a radius of zero for the second label (distance modes: nothing is closer than 0, that label's ground truths are never paired;
+# IoU modes: disjoint boxes, IoU exactly 0.0, are not paired)
+RADII_B_INT = {"CENTERDISTANCE": [2, 0], "PLANEDISTANCE": [2, 0], "IOU2D": [0, 0], "IOU3D": [0, 0]}
 
 
 def subsets(n, kmax, both_orders=True):
@@ -553,7 +555,9 @@ def analyse(case, ests, gts, tf):
             if r is None:
                 M[i][j] = True
             else:
-                if abs(S[i][j] - r) < 1e-6:
+                # (a score of exactly 0.0 against a radius of exactly 0 is an exact comparison, not a boundary: disjoint boxes have IoU 0.0,
+                # coinciding centres distance 0.0 - neither is "closer than" a zero radius)
+                if abs(S[i][j] - r) < 1e-6 and not (S[i][j] == 0.0 and r == 0):
                     boundary = True
                 M[i][j] = (S[i][j] > r) if mx else (S[i][j] < r)
     return S, M, C, boundary
